@@ -545,3 +545,13 @@ Section PartSet.
       + exfalso. apply nth_error_None in En. rewrite (is_len _ Hs), Hidx, Nat2N.id in En. lia.
   Qed.
 End PartSet.
+
+(** the hypotheses of the part-set theorems are satisfiable (a toy hash with 32-byte output) *)
+Example hyps_satisfiable :
+  let H := fun x : bytes => firstn 32 (x ++ repeat 0%N 32) in
+  (forall x, length (H x) = 32) /\ exists full, from_data H [1; 2; 3; 4; 5]%N 2%N = Some full /\ ps_total full = 3%N.
+Proof.
+  split.
+  - intros x. rewrite firstn_length, app_length, repeat_length. lia.
+  - eexists. split; [vm_compute; reflexivity|reflexivity].
+Qed.
